@@ -120,8 +120,59 @@ def one_case(job):
     return res
 
 
+def probe_warnings(ctx):
+    """A hand-written probe with a known number of warnings per line: every read of the undeclared
+    variable raises one warning when its line is produced; the constructor adds the version warning.
+    Lines that end right before a choice point / the end (snapshot discarded) and lines joined by glue
+    are the interesting cases."""
+    ink = os.path.join(common.ROOT, "corpus", "c13", "warnings.ink")
+    dst = ctx.path("c13_warnings.json")
+    st, detail = common.compile_ink(ctx, ink, dst)
+    if st != "ok":
+        ctx.corr_diff("probe story does not compile", {"file": ink, "detail": detail})
+        return
+    doc = open(dst).read().replace('"VAR?":"score"', '"VAR?":"scor"').replace('"inkVersion":21', '"inkVersion":20')
+    open(dst, "w").write(doc)
+    # expected warnings per delivered line, per branch
+    expected = {0: [("Start 0.", 2), ("Your score is 0.", 1), ("One", 0), ("Second score 0.", 1), ("More text.", 0),
+                    ("Glued 0 and 0 done.", 2)],
+                1: [("Start 0.", 2), ("Your score is 0.", 1), ("Two", 0), ("Last 0.", 1)]}
+    for branch in (0, 1):
+        for handler in (True, False):
+            ops = [["new", dst], ["seed", 1, 0], ["fuel", 5000]] + ([["handler"]] if handler else [])
+            ops += [["cont"], ["warnings"], ["cont"], ["warnings"], ["choose", branch]]
+            ops += [["cont"], ["warnings"]] * (len(expected[branch]) - 2 + 1)
+            rr = play.run_rt_script(ops, ctx.scratch, tag="c13probe")
+            rm = play.run_model(ops, ctx.scratch, tag="c13probem")
+            d = play.first_diff(ops, rr, rm)
+            if d:
+                ctx.corr_diff("warning probe (delivery block + look-ahead)", {"handler": handler, "branch": branch,
+                                                                             "op": ops[d[0]], "code": d[1], "model": d[2]})
+            ctx.case(f"probe-{branch}-{handler}", True)
+            got = []
+            seen = 0
+            for i, (op, r) in enumerate(zip(ops, rr)):
+                if op == ["cont"] and r.get("r") == "ok":
+                    if handler:
+                        n = sum(1 for e in (r.get("ev") or []) if e and e[0] == "handler" and e[1] == "W")
+                    else:
+                        w = (rr[i + 1].get("v") or []) if i + 1 < len(rr) else []
+                        n = len(w) - seen
+                        seen = len(w)
+                    got.append(((r.get("v") or "").strip(), n))
+            want = expected[branch]
+            if got[: len(want)] != want:
+                ctx.violation("oracle", {"probe": "corpus/c13/warnings.ink (variable renamed, inkVersion 20)",
+                                         "handler": handler, "branch": branch, "expected_line_warnings": want,
+                                         "observed": got,
+                                         "why": "a warning was lost, duplicated or delivered with the wrong line"},
+                              signature={"kind": "warning-probe"})
+    ctx.sample({"probe": "warnings.ink", "expected": expected[0]})
+
+
 def run(ctx):
     quick = ctx.tier == "quick"
+    probe_warnings(ctx)
     pool = stories.generated_pool(ctx, "errors", 60 if quick else 1500)
     pool += stories.generated_pool(ctx, "core", 15 if quick else 300)
     pool += [s for s in stories.corpus_pool(ctx, reference=False)][: (40 if quick else 200)]
